@@ -99,6 +99,8 @@ def run(res, tier, seed, shard, nshards):
             res.inconc(f"reference oracles disagree on {d.hex()}")
             return
     res.count("oracle_selfcheck", 2000)
+    if shard == 0:
+        H.contracts_workload(res, ["validate_utf8"])
 
     cover = U.state_cover()
     Wset = distinguishing_set()
